@@ -179,7 +179,7 @@ def compare_snaps(a, b, allow_path_delta=None):
         bad.append(('R1', 'sys.stdout is %s, was %s' % (type(b.stdout).__name__, type(a.stdout).__name__)))
     if b.stderr is not a.stderr:
         bad.append(('R1', 'sys.stderr is %s, was %s' % (type(b.stderr).__name__, type(a.stderr).__name__)))
-    if not allow_path_delta or not (allow_path_delta[0] or allow_path_delta[1]):
+    if not allow_path_delta or not (allow_path_delta[0] or allow_path_delta[1] or (len(allow_path_delta) > 3 and allow_path_delta[3])):
         # nobody but xdoctest touched sys.path in between: "as it was found" includes the order
         if sorted(a.path) == sorted(b.path) and list(a.path) != list(b.path):
             moved = [LOG.norm(x) for x, y in zip(a.path, b.path) if x != y]
@@ -431,6 +431,7 @@ def _import_wrapper(orig):
                 b = PEER.import_plan.get('.'.join(parts[:i]))
                 if b is not None:
                     b['_tmp'] = dpath
+                    b['_index'] = index
         except Exception:
             pass
         LOG.add('import_begin', rec['modpath'])
